@@ -388,3 +388,6 @@ func runPlan(p Plan) (vk.Outcome, error) {
 func TestDeque(t *testing.T) {
 	vk.Run(t, suite, "deque", 5000, genPlan, runPlan)
 }
+
+// FuzzDeque: native coverage-guided fuzzing of the same property (thorough tier only).
+func FuzzDeque(f *testing.F) { vk.Fuzz(f, suite, "deque", genPlan, runPlan) }
